@@ -4,6 +4,7 @@ import Cvise.Drv.Driver
 import Cvise.Drv.PassGroup
 import Cvise.Drv.Passes
 import Cvise.Drv.Clex
+import Cvise.Drv.ClangDelta
 open Cvise.Drv
 
 def dispatch (line : String) : String :=
@@ -17,6 +18,7 @@ def dispatch (line : String) : String :=
   | "group" :: _ => handleGroup line
   | "pass" :: args => handlePass args
   | "clex" :: args => handleClex args
+  | "cd" :: args => handleCD args
   | _ => "bad-op"
 
 partial def loop (h : IO.FS.Stream) (out : IO.FS.Stream) : IO Unit := do
